@@ -151,6 +151,10 @@ pub enum ReqSpec {
         confirm_timeout: Option<u64>,
         persist: Option<Option<String>>,
         persist_id: Option<Option<String>>,
+        /// the order in which the caller makes the builder calls (a permutation code; 0 =
+        /// confirmed, confirm_timeout, persist, persist_id)
+        #[serde(default)]
+        order: u8,
     },
     CancelCommit {
         persist_id: Option<Option<String>>,
@@ -258,6 +262,7 @@ impl ReqSpec {
                 confirm_timeout: None,
                 persist: None,
                 persist_id: None,
+                order: 0,
             },
             Self::CancelCommit { persist_id: None },
             Self::DiscardChanges,
@@ -455,18 +460,40 @@ where
             confirm_timeout,
             persist,
             persist_id,
+            order,
         } => ex!(Commit, move |mut b| {
-            if let Some(c) = confirmed {
-                b = b.confirmed(c)?;
+            // the four builder calls in the order the case asks for
+            let mut calls: Vec<u8> = vec![0, 1, 2, 3];
+            let mut code = order as usize;
+            let mut seq = Vec::new();
+            while !calls.is_empty() {
+                let i = code % calls.len();
+                code /= calls.len();
+                seq.push(calls.remove(i));
             }
-            if let Some(t) = confirm_timeout {
-                b = b.confirm_timeout(Duration::from_secs(t))?;
-            }
-            if let Some(p) = persist {
-                b = b.persist(tok(&p))?;
-            }
-            if let Some(p) = persist_id {
-                b = b.persist_id(tok(&p))?;
+            for c in seq {
+                match c {
+                    0 => {
+                        if let Some(c) = confirmed {
+                            b = b.confirmed(c)?;
+                        }
+                    }
+                    1 => {
+                        if let Some(t) = confirm_timeout {
+                            b = b.confirm_timeout(Duration::from_secs(t))?;
+                        }
+                    }
+                    2 => {
+                        if let Some(p) = persist.clone() {
+                            b = b.persist(tok(&p))?;
+                        }
+                    }
+                    _ => {
+                        if let Some(p) = persist_id.clone() {
+                            b = b.persist_id(tok(&p))?;
+                        }
+                    }
+                }
             }
             b.finish()
         }),
